@@ -311,7 +311,24 @@ def handleObj (st : DState) (parts : List String) : Option (DState × String) :=
     let fmt : Fmt := if f == "cbor" then .cbor else .json
     let outs := (script.splitOn ";").map fun (op : String) =>
       match op.splitOn "|" with
-      | [_, _, _, _, _] => "err"     -- a marshal call whose writer fails at a Write call the document needs (C16: reported)
+      | [k, aid, tid, arg, extra] =>
+        if k == "M" then "err"     -- a marshal call whose writer fails at a Write call the document needs (C16: reported)
+        else
+          -- X: clone a value of type `tid` into a variable of another type `extra`
+          (match parseNat aid, parseNat tid, parseNat extra with
+           | some ai, some ti, some tj =>
+             (match st.atlases.lookup ai with
+              | some a =>
+                (match parseValue st.types ti arg with
+                 | some v =>
+                   let mo := marshalV st.types a trLib 100000 ti v
+                   if mo.fail.isSome || bindFails st.types a ti || bindFails st.types a tj then "err" else
+                   (match unmV st.types a trLib st.it 100000 tj (zeroVal st.types 64 tj) mo.toks with
+                    | .ok rv [] _ => showVal rv
+                    | _ => "err")
+                 | none => "bad")
+              | none => "bad")
+           | _, _, _ => "bad")
       | [k, aid, tid, arg] =>
         (match parseNat aid, parseNat tid with
          | some ai, some ti =>
@@ -523,7 +540,9 @@ partial def loop (hin : IO.FS.Stream) (hout : IO.FS.Stream) (st : DState) : IO U
   if line.isEmpty then return ()
   let l := line.trimRight
   match l.splitOn " " with
-  | id :: rest =>
+  | id :: rest0 =>
+    -- `clonev` (source passed by value instead of by pointer) is the same function of the value in the model
+    let rest := match rest0 with | "clonev" :: r => "clone" :: r | r => r
     match handleObj st rest with
     | some (st', out) =>
       hout.putStrLn (id ++ " " ++ out)
